@@ -5,7 +5,7 @@
    On success copies it to /verif/seeded/<ID>-<m>/ with meta.json (what was run, results)."""
 import sys, os, re, json, subprocess, shutil
 
-CONF = "/tmp/confirm"
+CONF = os.environ.get("CONFIRM_DIR", "/tmp/confirm")
 ENV = dict(os.environ, CARGO_TARGET_DIR=CONF + "/target", CARGO_NET_OFFLINE="true")
 
 
@@ -16,7 +16,9 @@ def sh(cmd, cwd, timeout=3600):
 
 def main():
     pid, m = sys.argv[1], sys.argv[2]
-    src = f"/tmp/seed/{pid}/out/{m}"
+    outdir = sys.argv[3] if len(sys.argv) > 3 else "out"       # wave 2 delivers under out2
+    tag = "" if outdir == "out" else "w" + outdir[3:]
+    src = f"/tmp/seed/{pid}/{outdir}/{m}"
     wt = CONF + "/repo"
     os.makedirs(CONF, exist_ok=True)
     if not os.path.exists(wt):
@@ -68,16 +70,16 @@ def main():
     res["confirmed"] = confirmed
     print(pid, m, "confirmed=%s existing_ok=%s demo_with_patch_rc=%s demo_without_rc=%s crates=%s" % (confirmed, ok_existing, rc1, rc2, crates))
     if confirmed:
-        dst = f"/verif/seeded/{pid}-{m}"
+        dst = f"/verif/seeded/{pid}-{tag}{m}"
         os.makedirs(dst, exist_ok=True)
         for f in ("patch.diff", "demo.rs", "README.md"):
             shutil.copy(src + "/" + f, dst + "/" + f)
         meta = {"property": pid, "checks": [pid], "origin": "seeded by an independent sub-agent given only the property text",
                 "needs": open(src + "/README.md").read()[:1500], "demo_path": demo_rel, "confirmation": res,
-                "ran": "tools/confirm_seed.py %s %s (scratch worktree /tmp/confirm/repo, private target dir)" % (pid, m)}
+                "ran": "tools/confirm_seed.py %s %s %s (scratch worktree, private target dir)" % (pid, m, outdir)}
         json.dump(meta, open(dst + "/meta.json", "w"), indent=1)
     else:
-        json.dump(res, open(f"/tmp/seed/{pid}/out/{m}/confirm_failed.json", "w"), indent=1)
+        json.dump(res, open(src + "/confirm_failed.json", "w"), indent=1)
     return 0 if confirmed else 1
 
 
